@@ -12,6 +12,10 @@
 #include <unistd.h>
 #include <fcntl.h>
 #include <gmp.h>
+#include <signal.h>
+#include <sys/time.h>
+#include <cstring>
+#include <cstdlib>
 #include "gmp++/gmp++.h"
 #include "givinteger.h"
 #include "givintnumtheo.h"
@@ -65,7 +69,17 @@ template<class NTD> static void print_set(std::ostream& o, const NTD& NT, const 
     o << " ;"; for (size_t i = 0; i < Lq.size(); ++i) o << " " << Lq[i] << " " << e[i];
 }
 
+// Per-case CPU-time watchdog (ITIMER_PROF counts user + system time of this process: independent of the machine load).
+// A call that has not returned after the budget is answered `DOES-NOT-RETURN cpu>Ns` for THAT case and the process ends;
+// the check restarts the harness on the remaining lines and re-runs the case alone with a larger budget before reporting it.
+static char wd_msg[64]; static size_t wd_len = 0;
+static void wd_fire(int) { ssize_t w = write(1, wd_msg, wd_len); (void)w; _exit(97); }
+static void wd_arm(long sec) { struct itimerval it; memset(&it, 0, sizeof it); it.it_value.tv_sec = sec; setitimer(ITIMER_PROF, &it, 0); }
+
 int main() {
+    long budget = 20; { const char* e = getenv("C13_CPU_BUDGET"); if (e && atol(e) > 0) budget = atol(e); }
+    wd_len = (size_t) snprintf(wd_msg, sizeof wd_msg, "DOES-NOT-RETURN cpu>%lds\n", budget);
+    { struct sigaction sa; memset(&sa, 0, sizeof sa); sa.sa_handler = wd_fire; sigaction(SIGPROF, &sa, 0); }
     quiet_stderr();
     std::ios::sync_with_stdio(false);
     Integer::seeding((uint64_t)20261001);
@@ -98,6 +112,7 @@ int main() {
         bool rnd = pdraws || op == "sqrootmod" || op == "brillhart" || op.compare(0, 12, "sumofsquares") == 0
                    || op.compare(0, 9, "prim_root") == 0 || op.compare(0, 8, "probable") == 0 || op == "prim_elem" || op == "prim_inv";
         if (rnd) Integer::seeding(seed);
+        wd_arm(budget);
         // ------------------------------------------------------------ numtheo
         if (op == "phi") { NT.phi(r, a[0]); o << r; }
         else if (op == "phiL.list") { std::list<Z> L(a.begin() + 1, a.end()); NT.phi(r, L, a[0]); o << r; }
@@ -170,6 +185,7 @@ int main() {
         else if (op == "invin") { r_ = a[0]; NT.invin(al1 >= 0 ? r : r_, a[1]); o << (al1 >= 0 ? r : r_); }
         else if (op == "mod") { NT.mod(r, a[0], a[1]); o << r; }
         else o << "UNKNOWN-OP";
+        wd_arm(0);
         std::cout << o.str() << std::endl;
     }
     std::cout.flush();
